@@ -46,6 +46,11 @@ def build(hist, usdc_px: Decimal, with_opt: bool, tmp):
     prices = fu["prices"].map(lambda x: D(x) * usdc_px)          # ETH and USDC in USD (USDC off its peg)
     for c in fa["prices"].columns:
         prices[c] = [D(str(x)) for x in fa["prices"][c]]
+    # the price table may cover more than the market data (set_price documents "larger than or equal to data"): three earlier minutes
+    # with other prices - a bar must be valued with the row of ITS timestamp, not with the row at its position
+    lead = pd.DataFrame({c: [prices[c].iloc[0] * D(f) for f in ("0.9", "1.1", "0.8")] for c in prices.columns},
+                        index=pd.DatetimeIndex([sim.minute(-3), sim.minute(-2), sim.minute(-1)]))
+    prices = pd.concat([lead, prices])
     worlds = [nla_drv.World("uni", act, {"uni": um}), nla_drv.World("aave", act, {"aave": am})]
     worlds[1].mem["tok"] = u.tok
     if with_opt:
